@@ -226,13 +226,17 @@ class Impl:
             elif route == "avro-doc":
                 from flow.record.adapter.avro import schema_to_descriptor
                 d = schema_to_descriptor({"type": "record", "name": "x", "doc": json.dumps([name, fields]), "fields": []})
+            elif route == "dynamic":
+                # DynamicDescriptor(name, field names): every field has type "dynamic"
+                assert all(t == "dynamic" for t, _ in fields)
+                d = self.base.DynamicDescriptor(name, [n for _, n in fields])
             elif route == "avro-schema":
                 from flow.record.adapter.avro import schema_to_descriptor
                 d = schema_to_descriptor(name)      # `name` is the schema dict here
             else:
                 raise AssertionError(route)
             if not isinstance(d, self.base.RecordDescriptor):
-                out.update(accepted=False, error="NotADescriptor", message=repr(d)[:80], is_exception=True)
+                out.update(accepted=False, error="NotADescriptor(%s)" % type(d).__name__, message=repr(d)[:80], is_exception=False)
             else:
                 out.update(accepted=True, desc=d)
         except Exception as e:  # noqa: BLE001 -- "rejected with an error"
@@ -510,6 +514,44 @@ class Gen:
                     yield route, "tst/tye" + ch, [("string", "f")], "lookalike-type-name"
                 yield "ctor", "t/" + self.fresh(), [("string", ch + "fild")], "lookalike-field-name"
                 yield "json", ch + "tst", [("string", "f")], "lookalike-type-name"
+        # 1c. DynamicDescriptor(name, field names): one more way a definition is given through the API
+        yield "dynamic", "dyn/" + self.fresh(), [("dynamic", "a"), ("dynamic", "b9"), ("dynamic", "x_y")], "dynamic-valid"
+        yield "dynamic", "dyn/" + self.fresh(), [], "dynamic-valid-no-fields"
+        yield "dynamic", "dyn/" + self.fresh(), [("dynamic", "a"), ("dynamic", "from")], "dynamic-valid-keyword"
+        yield "dynamic", "dyn/" + self.fresh(), [("dynamic", "a"), ("dynamic", "a")], "dynamic-duplicate"
+        yield "dynamic", "", [("dynamic", "a")], "dynamic-empty-type-name"
+        for sym in SYMBOLS + ul["fold"] + LOOKALIKE_SAMPLE:
+            for where in ("prefix", "middle", "suffix"):
+                yield "dynamic", mutate(rnd, "dyn/" + self.fresh(), sym, where), [("dynamic", "f")], "dynamic-sym-type-name"
+                yield "dynamic", "dyn/" + self.fresh(), [("dynamic", "ok"), ("dynamic", mutate(rnd, "fld", sym, where))], "dynamic-sym-field-name"
+        for p in pay["type_name"]:
+            yield "dynamic", p, [("dynamic", "f")], "dynamic-payload-type-name"
+        for p in pay["field_name"]:
+            yield "dynamic", "dyn/" + self.fresh(), [("dynamic", p)], "dynamic-payload-field-name"
+            yield "dynamic", "dyn/" + self.fresh(), [("dynamic", "class"), ("dynamic", p)], "dynamic-payload-field-name-kw"
+        for w in self.impl.reserved + ["_x", "__", "a\n", "", "1a"]:
+            for k in range(3):
+                fs = [("dynamic", "g0"), ("dynamic", "from"), ("dynamic", "g2")]
+                fs[k] = ("dynamic", w)
+                yield "dynamic", "dyn/" + self.fresh(), fs, "dynamic-invalid-at-position"
+        for kw in keyword.kwlist:
+            yield "dynamic", "dyn/" + self.fresh(), [("dynamic", kw)], "dynamic-keyword-field-name"
+        for _ in range(1500 if thorough else 150):
+            nm = gen_valid_typename(rnd) + "/" + self.fresh()
+            if rnd.random() < 0.15:
+                nm = mutate(rnd, nm, rnd.choice(SYMBOLS), rnd.choice(("prefix", "middle", "suffix")))
+            fs = []
+            for _i in range(rnd.randint(0, 5)):
+                fn = gen_valid_ident(rnd)
+                r = rnd.random()
+                if r < 0.1:
+                    fn = mutate(rnd, fn, rnd.choice(SYMBOLS), rnd.choice(("prefix", "middle", "suffix")))
+                elif r < 0.15:
+                    fn = rnd.choice(keyword.kwlist)
+                elif r < 0.2:
+                    fn = rnd.choice(self.impl.reserved + ["_x"])
+                fs.append(("dynamic", fn))
+            yield "dynamic", nm, fs, "dynamic-random"
         # 2. crafted payloads (would create the tripwire file if executed)
         for route in ROUTES:
             for p in pay["type_name"]:
@@ -1022,6 +1064,110 @@ def avro_schema_cases(ctx, impl):
     return None
 
 
+AVRO_ORDINARY = [("string", "string", ["x", "", "y z"]), ("long", "varint", [1, -5, 2 ** 40]), ("boolean", "boolean", [True, False, True]),
+                 ("double", None, None), ("bytes", "bytes", [b"ab", b"", b"\x00\xff"]), ("int", "varint", [3, 0, -1]),
+                 ("float", "float", [1.5, 0.0, -2.25])]
+AVRO_RESERVED = {"_source": ("string", ["s1", "s2", "s3"]), "_classification": ("string", ["c", "c", "c"]),
+                 "_generated": ({"type": "long", "logicalType": "timestamp-micros"}, [1600000000000000, 1600000001000000, 1600000002000000]),
+                 "_version": ("long", [1, 1, 1])}
+
+
+def avro_foreign_run(impl, workdir, schema_fields, rows, tagno):
+    """write an Avro file with a standard writer (no embedded flow.record definition), read it with AvroReader
+    -> violation text or None.  schema_fields: [(name, avro type)], rows: list of dicts"""
+    import fastavro
+    from flow.record.adapter.avro import AvroReader
+    path = os.path.join(workdir, "foreign%d.avro" % tagno)
+    schema = {"type": "record", "namespace": "foreign.ns", "name": "rec%d" % tagno,
+              "fields": [{"name": n, "type": [t, "null"] if isinstance(t, str) else [t, {"type": "null"}]} for n, t in schema_fields]}
+    with open(path, "wb") as fh:
+        fastavro.writer(fh, fastavro.parse_schema(schema), rows)
+    flowtype = {a: f for a, f, _ in AVRO_ORDINARY}
+    want = [(flowtype[t], n) for n, t in schema_fields if not n.startswith("_")]
+    if any(t is None for t, _ in want):
+        want = None           # a type without a mapping: the file must be refused
+    impl.clear_cache()
+    try:
+        rd = AvroReader(path)
+    except Exception as e:  # noqa: BLE001
+        return None if want is None or not all(ident(n) for _, n in want) else ("refused", e)
+    try:
+        d = rd.desc
+        if want is None:
+            return "an Avro schema with an unmappable field type was accepted as %r" % (d.get_field_tuples(),)
+        got = [tuple(x) for x in d.get_field_tuples()]
+        if got != want:
+            return "the record type derived from the Avro schema has fields %r, the schema declares %r (underscore-named fields left out)" % (got, want)
+        if d.name != "foreign/ns/rec%d" % tagno or list(d.recordType.__slots__) != [n for _, n in want] + impl.reserved:
+            return "the record type derived from the Avro schema is %r with slots %r" % (d.name, d.recordType.__slots__)
+        if all((not n.startswith("_")) or n in AVRO_RESERVED for n, _ in schema_fields):
+            try:
+                recs = list(rd)
+            except Exception as e:  # noqa: BLE001
+                return "the records of the Avro file cannot be read with the derived record type: %s: %s" % (type(e).__name__, e)
+            if len(recs) != len(rows):
+                return "%d of %d records read" % (len(recs), len(rows))
+            for r, row in zip(recs, rows):
+                for _, n in want:
+                    v = getattr(r, n)
+                    if not (v == row[n] or (isinstance(row[n], float) and abs(v - row[n]) < 1e-6)):
+                        return "field %s read back as %r, written %r" % (n, v, row[n])
+    finally:
+        rd.close()
+    return None
+
+
+def avro_foreign_cases(ctx, impl, thorough):
+    """Avro files of a standard writer: underscore-named / reserved-named fields at every position among ordinary ones"""
+    rnd = random.Random(ctx.seed + 3)
+    workdir = str(ctx.work)
+    cases = []
+    ordinary = [("a", "string"), ("b", "long"), ("c", "boolean")]
+    for us in list(AVRO_RESERVED) + ["_hidden"]:
+        for pos in range(len(ordinary) + 1):
+            fs = list(ordinary)
+            fs.insert(pos, (us, AVRO_RESERVED[us][0] if us in AVRO_RESERVED else "string"))
+            cases.append(fs)
+    cases.append([("_source", "string"), ("a", "string"), ("_version", "long"), ("b", "long"), ("_generated", AVRO_RESERVED["_generated"][0]), ("c", "boolean")])
+    cases.append([("a", "string"), ("_source", "string"), ("_classification", "string"), ("b", "long")])
+    cases.append([("_source", "string")])
+    cases.append([("a", "string"), ("bad", "double")])
+    cases.append([("a", "string"), ("a-b", "long")])
+    for _ in range(300 if thorough else 40):
+        k = rnd.randint(1, 4)
+        fs = []
+        for i in range(k):
+            a = rnd.choice([x for x in AVRO_ORDINARY if x[1] is not None or rnd.random() < 0.1])
+            fs.append(("f%d%s" % (i, rnd.choice(["", "_x", "9"])), a[0]))
+        for us in rnd.sample(list(AVRO_RESERVED) + ["_hidden"], rnd.randint(0, 3)):
+            fs.insert(rnd.randint(0, len(fs)), (us, AVRO_RESERVED[us][0] if us in AVRO_RESERVED else "string"))
+        cases.append(fs)
+    vals = {a: v for a, _, v in AVRO_ORDINARY}
+    for no, fs in enumerate(cases):
+        rows = []
+        for i in range(3):
+            row = {}
+            for n, t in fs:
+                if n in AVRO_RESERVED:
+                    row[n] = AVRO_RESERVED[n][1][i]
+                elif n.startswith("_"):
+                    row[n] = "h%d" % i
+                else:
+                    row[n] = vals[t][i] if vals.get(t) else 1.0
+            rows.append(row)
+        ctx.count_case(("avro-foreign", tuple((n, json.dumps(t)) for n, t in fs)))
+        try:
+            v = avro_foreign_run(impl, workdir, fs, rows, no)
+        except Exception as e:  # noqa: BLE001 -- the standard writer itself refused the case
+            continue
+        if isinstance(v, tuple):
+            continue              # refused although well-formed: allowed (over-rejection)
+        if v:
+            return ("%s (Avro schema fields %r)" % (v, [n for n, _ in fs]),
+                    dict(kind="avro-foreign", fields=[[n, t] for n, t in fs], violation=v))
+    return None
+
+
 def capture_probe(ctx, impl, kf):
     """a declared name that coincides with a global read by the template's method bodies"""
     base = impl.base
@@ -1139,7 +1285,8 @@ def python_only_search(ctx, reason):
         if first is None:
             first = text_cases(ctx, impl, kf, trip, ctx.tier == "thorough", recs)
         if first is None:
-            first = structural_cases(ctx, impl) or avro_schema_cases(ctx, impl) or capture_probe(ctx, impl, kf)
+            first = (structural_cases(ctx, impl) or avro_schema_cases(ctx, impl)
+                     or avro_foreign_cases(ctx, impl, ctx.tier == "thorough") or capture_probe(ctx, impl, kf))
         if first is None:
             _, first = fieldtype_cases(ctx, impl, trip)
     finally:
@@ -1170,7 +1317,8 @@ def run(ctx):
         "valid definitions with hostile edits; definitions given as TEXT (the deprecated string-only form: blank lines at every "
         "position, CRLF, tabs, semicolons, comments, several fields per line, unicode white space, hostile symbols, random layouts) "
         "through constructor, descriptor frame and JSON line, judged against an independent reading of the text; malformed "
-        "(non-string) definitions; Avro schemas without embedded "
+        "(non-string) definitions; DynamicDescriptor(name, names) with the same hostile names; Avro files of a standard writer "
+        "(no embedded definition) with reserved / underscore-named fields at every position, read through AvroReader; Avro schemas without embedded "
         "definition; plus EXHAUSTIVELY all %d strings of length <= 4 (thorough: 5) over a 10-symbol class-representative alphabet "
         "through is_valid_field_name (both modes) and the type-name check. distinct = distinct (route, definition with "
         "letters/digits abstracted to their class and run lengths capped); every case is non-trivial (it carries a "
@@ -1213,7 +1361,8 @@ def run(ctx):
         if first is None:
             first = text_cases(ctx, impl, kf, trip, thorough, recs)
         if first is None:
-            first = structural_cases(ctx, impl) or avro_schema_cases(ctx, impl) or capture_probe(ctx, impl, kf)
+            first = (structural_cases(ctx, impl) or avro_schema_cases(ctx, impl)
+                     or avro_foreign_cases(ctx, impl, ctx.tier == "thorough") or capture_probe(ctx, impl, kf))
         ft_cases, ft_first = fieldtype_cases(ctx, impl, trip)
         first = first or ft_first
         if first:
@@ -1345,6 +1494,18 @@ def replay(obj):
                     print("KNOWN-FINDING:", a[1])
             v = capture_probe(_C(), impl, kf)
             print("replay capture probe ->", v[0] if v else "no violation")
+            return 1 if v else 0
+        if kind == "avro-foreign":
+            import tempfile
+            fs = [(n, t) for n, t in obj["fields"]]
+            vals = {a: v for a, _, v in AVRO_ORDINARY}
+            rows = [{n: (AVRO_RESERVED[n][1][i] if n in AVRO_RESERVED else "h%d" % i if n.startswith("_") else (vals[t][i] if vals.get(t) else 1.0))
+                     for n, t in fs} for i in range(3)]
+            os.makedirs("/verif/.work", exist_ok=True)
+            with tempfile.TemporaryDirectory(dir="/verif/.work") as td:
+                v = avro_foreign_run(impl, td, fs, rows, 0)
+            v = None if isinstance(v, tuple) else v
+            print("replay: Avro schema fields %r -> %s" % ([n for n, _ in fs], v or "property holds"))
             return 1 if v else 0
         if kind == "text-definition":
             text, route = obj["text"], obj["route"]
